@@ -44,7 +44,7 @@ CLAIMED = {
              tech="trace extraction + SMT model of all schedules (linear integer arithmetic over event positions) + identity queries", ref="4/C16"),
  'C05': dict(text="enforce/penalize/condense/solve run on matrices whose stored entries, rhs, prescribed values and solver output are symbolic; row/rhs identities and the implication 'condensed solution => original equations on kept rows' decided for all values, over all enumerated sparsity patterns n<=3 (n=4 sampled) and all index sets",
              tech="symbolic execution of skfem.utils on a differentially validated sparse stub + z3 identities/implications", ref="4/C05"),
- 'C20': dict(text="every integrand helper (NumPy and JAX source) equals its index-sum definition for all tensor entries (2x2, 3x3, trailing axes), and the two variants agree; NonlinearForm/JAX tracing is outside the claim",
+ 'C20': dict(text="every integrand helper (NumPy and JAX source) equals its index-sum definition for all tensor entries (2x2, 3x3, trailing axes), and the two variants agree; NonlinearForm._assemble at a symbolic linearisation point with jax.linearize replaced by a forward-mode stand-in (Jacobian == hand-linearised form, rhs == -residual); JAX's own differentiation is outside the claim",
              tech="symbolic execution of helper functions on z3 terms + polynomial identity queries", ref="4/C20"),
  'C08': dict(text="every (reference cell, order) rule in the stated range integrates ALL polynomials of its advertised degree within 1e-12 (LRA over symbolic coefficients), weights/nodes read off concretely; declined orders raise",
              tech="SMT (z3 LRA) over symbolic polynomial coefficients on the real quadrature tables", ref="4/C08"),
